@@ -971,6 +971,8 @@ func c17UnitShard(ctx *Ctx, res *Result, spec c17ShardSpec) {
 		add(c17RandomCondProgram(rng, res), "conditional", true)
 	}
 	flush()
+	// makefiles with directives (Model/RedundantDir.v)
+	c17DUnit(ctx, res, rng)
 }
 
 func runC17Shard(ctx *Ctx) *Result {
@@ -1486,6 +1488,10 @@ func runC17(ctx *Ctx) *Result {
 	if res.Broken != "" {
 		return res
 	}
+	c17DTreeLayer(ctx, res)
+	if res.Broken != "" {
+		return res
+	}
 	c17CrossCheck(ctx, res)
 	if res.Broken != "" {
 		return res
@@ -1529,6 +1535,10 @@ func runC17(ctx *Ctx) *Result {
 
 func replayC17(ctx *Ctx, rep map[string]any) *Result {
 	res := &Result{Rule: "replay"}
+	if l, _ := rep["layer"].(string); l == "dir" {
+		c17DReplayRun(ctx, res, rep)
+		return res
+	}
 	if l, _ := rep["layer"].(string); l == "pkgtree" {
 		c17TreeReplayRun(ctx, res, rep)
 		return res
